@@ -452,6 +452,20 @@ async fn run_history(case: &Value, base: &Path) -> Value {
             }
             other => panic!("unknown op {other}"),
         };
+        // add_node saves the registry itself (after every service it records).  What the next antctl
+        // command starts from is that file, so: compare the file as add_node left it with the in-memory
+        // registry, and CONTINUE from the file.
+        let mut disk_same = true;
+        if kind == "add" {
+            let mem = serde_json::to_value(&reg).unwrap();
+            match NodeRegistry::load(&reg_path) {
+                Ok(on_disk) => {
+                    disk_same = serde_json::to_value(&on_disk).unwrap() == mem;
+                    reg = on_disk;
+                }
+                Err(_) => disk_same = false,
+            }
+        }
         // "The registry saved after each step loads back to the same state": save, reload, compare,
         // and CONTINUE with the reloaded registry
         let saved = reg.save().is_ok();
@@ -466,7 +480,7 @@ async fn run_history(case: &Value, base: &Path) -> Value {
         };
         let s = sim.lock().unwrap();
         let (nodes, os) = view(&reg, &s);
-        steps.push(json!({ "out": out, "reg": nodes, "os": os, "reload_ok": reload_ok, "extra": extra,
+        steps.push(json!({ "out": out, "reg": nodes, "os": os, "reload_ok": reload_ok, "disk_same": disk_same, "extra": extra,
                            "killed": killed.clone() }));
     }
     let log = sim.lock().unwrap().log.clone();
